@@ -183,7 +183,7 @@ func c15(x *mon.Ctx) {
 		for _, qr := range results {
 			for _, st := range statuses {
 				for _, ol := range outlens {
-					for k := 0; k < 3; k++ {
+					for k := 0; k < x.Pick(3, 24); k++ {
 						s := &devScript{ReportErr: rr < 0, QuoteErr: qr < 0, Status: st, OutLen: ol, Quote: valid, FillRest: 0xA5}
 						if rr > 0 {
 							s.ReportResult = uint64(rr)
@@ -210,7 +210,7 @@ func c15(x *mon.Ctx) {
 	}
 	x.Each(len(scripts), func(i int) {
 		s := scripts[i]
-		param := fmt.Sprintf("report(err=%v,res=%d) quote(err=%v,res=%d) status=%#x outlen=%d rd=%d", s.ReportErr, s.ReportResult, s.QuoteErr, s.QuoteResult, s.Status, s.OutLen, i%3)
+		param := fmt.Sprintf("report(err=%v,res=%d) quote(err=%v,res=%d) status=%#x outlen=%d rd=%d", s.ReportErr, s.ReportResult, s.QuoteErr, s.QuoteResult, s.Status, s.OutLen, i%x.Pick(3, 24))
 		x.Crumb(i, "device", s)
 		p, ok := deviceProblem(s)
 		if p != "" {
@@ -388,7 +388,6 @@ func c15(x *mon.Ctx) {
 	x.Require("provider-unsupported", 0, 0, 2)
 	_ = world.Epoch
 }
-
 
 // realDevice runs this binary as a probe (-devprobe) under `strace -e inject=ioctl:...`: the real
 // client.LinuxDevice performs the two ioctls on a regular file and strace decides what the "kernel" answers.
